@@ -369,6 +369,8 @@ def replay(case):
     if case.get('growing'):
         check_growing(case)
         return
+    if case.get('shared_rng'):
+        return check_shared_rng(case)
     if case.get('profiled'):
         from .. import sched_engine as E
         sched_judge(E.run_case(case))
@@ -555,6 +557,39 @@ def run_sched_part(tier, idx, nshards, rec, known):
     return outs
 
 
+def check_shared_rng(case):
+    """Two inputs of a zip / intersperse draw from ONE random generator (a reshuffle behind a prefetch on one side, a
+    random augmentation below a reshuffle on the other): the order in which they draw is part of what the pipeline
+    delivers. Built twice from one seed; one build iterated plain, the other through the profiler."""
+    import lazy_dataset
+    n, sd = case['n'], case['seed']
+
+    def build():
+        rng = np.random.RandomState(sd)
+
+        def augment(x):
+            return x + 1000 * int(rng.randint(1, 9))
+        left = lazy_dataset.new(list(range(n))).map(augment).shuffle(True, rng=rng)
+        right = lazy_dataset.new(list(range(n))).shuffle(True, rng=rng)
+        if case['right'] == 'prefetch':
+            right = right.prefetch(2, 4)
+        elif case['right'] == 'prefetch1':
+            right = right.prefetch(1, 2)
+        elif case['right'] == 'catch':
+            right = right.catch()
+        if case['shape'] == 'zip':
+            return left.zip(right) if case['order'] == 'lr' else right.zip(left)
+        return left.intersperse(right) if case['order'] == 'lr' else right.intersperse(left)
+    plain = build()
+    W = lazy_dataset.core.ProfilingDataset(build())
+    for ep in range(case['epochs']):
+        a, _, _ = observe.take(lambda: plain, 4 * n + 4)
+        b, _, _ = observe.take(lambda: W, 4 * n + 4)
+        if a != b:
+            raise Violation(f'shared-rng-order|{case["shape"]}',
+                            f'{case}\nepoch {ep}: the plain pipeline delivers {a}\nthe profiled one {b}')
+
+
 def run_shard(tier, idx, nshards, rec, known):
     progcheck.setup_process()
 
@@ -585,6 +620,22 @@ def run_shard(tier, idx, nshards, rec, known):
                         o0.violation = (case, v.sig, v.detail)
                         return [o0]
                 rec.case(case, True, ['growing-list'], size=n)
+    if idx == 2 % nshards:
+        from ..common import Outcome
+        o2 = Outcome()
+        for shape in ('zip', 'intersperse'):
+            for right in ('prefetch', 'prefetch1', 'plain'):
+                for order in ('lr', 'rl'):
+                    for sd in range(3):
+                        case = {'shared_rng': True, 'n': 6, 'seed': sd, 'shape': shape, 'right': right, 'order': order,
+                                'epochs': 2}
+                        try:
+                            check_shared_rng(case)
+                        except Violation as v:
+                            if not known.match(v.sig):
+                                o2.violation = (case, v.sig, v.detail)
+                                return [o2]
+                        rec.case(case, True, ['shared-rng-' + shape, 'right:' + right], size=6)
     outs = [drive(one, st_case(), N[tier], rec, known, seed() * 1000 + idx)]
     if not outs[0].violation:
         outs.extend(run_sched_part(tier, idx, nshards, rec, known))
